@@ -12,7 +12,7 @@ def treewf(p, props="C03", prefix="TreeWF"):
     return [("%s.%s" % (prefix, n), "TW_%s(%s)" % (n, p), props if n != "geom" else props.replace("C03", "C02 C01")) for n in names]
 
 
-NODE_CLASSES = [None, "HOO_node", "HCT_node", "VHCT_node"]
+NODE_CLASSES = [None, "HOO_node", "HCT_node", "VHCT_node", "DOO_node", "SOO_node", "StoSOO_node", "SequOOL_node", "StroquOOL_node"]
 
 
 def register(reg):
